@@ -29,6 +29,7 @@ class Ctx:
         self.seed = int(os.environ.get("VERIF_SEED", "1") or 1)
         self.t0 = time.time()
         self.scratch = tempfile.mkdtemp(prefix="vcheck-%s-" % pid, dir=os.environ.get("VERIF_TMP", "/tmp"))
+        self.bind_done = set()
         if not os.environ.get("VERIF_KEEP_SCRATCH"):
             atexit.register(shutil.rmtree, self.scratch, True)
         self.violations = []      # (signature, replay path, text)
@@ -297,4 +298,69 @@ def validate_cases(ctx, family, module, cfg, trace, prefix="", max_reject=8, deq
     with concurrent.futures.ThreadPoolExecutor(max_workers=NCPU) as ex:
         for rej in ex.map(work, list(enumerate(shards))):
             rejected.extend(rej)
+    if not rejected and cases and os.environ.get("VERIF_BINDDEMO", "1") != "0" and (family, module, cfg) not in ctx.bind_done:
+        ctx.bind_done.add((family, module, cfg))
+        bind_demo(ctx, family, module, cfg, cases, prefix, deque)
     return len(cases), nev, rejected
+
+
+def bind_demo(ctx, family, module, cfg, cases, prefix, deque):
+    """The binding demonstration: an accepted real trace stops being accepted once one logged number is changed or one event is
+    dropped.  Four corruptions of one accepted case are tried; how many TLC rejects is recorded in the evidence (a field the
+    contract does not constrain - a timestamp used for ordering only, say - may survive; at least one must not)."""
+    import random
+    rnd = random.Random(ctx.seed)
+    pool = [c for c in cases if 4 <= len(c[1]) <= 400] or [c for c in cases if len(c[1]) >= 2]
+    if not pool:
+        return
+    start, lines = pool[rnd.randrange(len(pool))]
+    tried, caught, kinds = 0, 0, []
+    for attempt in range(4):
+        mutated = list(lines)
+        k = 1 + rnd.randrange(len(lines) - 1)                     # never the Reset line
+        if attempt % 2 == 0:
+            del mutated[k]
+            what = "dropped event %d" % (k + 1)
+        else:
+            try:
+                ev = json.loads(mutated[k])
+            except Exception:
+                continue
+            paths = []                                             # every number anywhere in the event (nested records and lists too)
+
+            def walk(node, path):
+                if isinstance(node, bool):
+                    return
+                if isinstance(node, int):
+                    paths.append(path)
+                elif isinstance(node, dict):
+                    for kk, vv in node.items():
+                        walk(vv, path + [kk])
+                elif isinstance(node, list):
+                    for ii, vv in enumerate(node[:50]):
+                        walk(vv, path + [ii])
+            walk(ev, [])
+            if not paths:
+                continue
+            path = rnd.choice(paths)
+            node = ev
+            for step in path[:-1]:
+                node = node[step]
+            node[path[-1]] += 1
+            key = ".".join(str(x) for x in path)
+            mutated[k] = json.dumps(ev, separators=(",", ":")) + "\n"
+            what = "field %s of event %d changed by one" % (key, k + 1)
+        pth = os.path.join(ctx.scratch, "%sbinddemo%d.ndjson" % (prefix, attempt))
+        with open(pth, "w") as f:
+            f.writelines(mutated)
+        try:
+            pos, _ = ctx.validate_trace(family, module, cfg, pth, deque=deque)
+        except Infra:
+            pos = -1                                               # TLC could not even evaluate the corrupted trace: not accepted either
+        tried += 1
+        if pos is not None:
+            caught += 1
+        kinds.append("%s: %s" % (what, "rejected" if pos is not None else "still accepted"))
+    ctx.coverage.setdefault("binding_demonstration", []).append(
+        {"trace_spec": "%s/%s %s" % (family, module, cfg), "corruptions_tried": tried, "rejected": caught, "detail": kinds})
+    ctx.log("binding demonstration %s/%s: %d of %d corruptions of an accepted trace rejected" % (family, module, caught, tried))
